@@ -33,6 +33,8 @@ import (
 	skywaytypes "github.com/palomachain/paloma/v2/x/skyway/types"
 	treasurytypes "github.com/palomachain/paloma/v2/x/treasury/types"
 
+	keeperutil "github.com/palomachain/paloma/v2/util/keeper"
+
 	"verif/harness/chain"
 	"verif/harness/evid"
 )
@@ -64,7 +66,7 @@ func TestC09_BlocksNeverAbort(t *testing.T) {
 	evid.Check(t, 80, 400, func(t *rapid.T) {
 		salt := fmt.Sprintf("c09-%d", rapid.IntRange(0, 1<<30).Draw(t, "salt"))
 		// start just below a housekeeping height class
-		base := rapid.SampledFrom([]int64{7, 44, 296, 299, 600, 15146}).Draw(t, "startHeight") // 15150 = 50*303
+		base := rapid.SampledFrom([]int64{7, 44, 296, 299, 290, 600, 9990, 15146}).Draw(t, "startHeight") // 15150 = 50*303
 		n := rapid.IntRange(3, 5).Draw(t, "nVals")
 		stakes := make([]int64, n)
 		for i := range stakes {
@@ -93,6 +95,7 @@ func TestC09_BlocksNeverAbort(t *testing.T) {
 		var log []string
 		hostileAccepted := 0
 		crossedHousekeeping := false
+		idSkips := 0
 		skyNonce := uint64(0)
 
 		// every block carries a canary transfer that must succeed
@@ -202,6 +205,46 @@ func TestC09_BlocksNeverAbort(t *testing.T) {
 				log = append(log, fmt.Sprintf("h%d:evidence(msg %d,%s)=%v", c.H-1, m.GetId(), proof.TypeUrl, oks))
 				hostile(oks[0])
 			},
+			// answers to the chain's own periodic questions (validator balances every 300 blocks, reference block every
+			// 10000): all validators agree on a hostile answer
+			"stateEvidence": func(t *rapid.T) {
+				sub := rapid.SampledFrom([]string{"validators-balances", "reference-block"}).Draw(t, "queue")
+				sq := consensustypes.Queue(sub, "evm", c09Chain)
+				ms, _ := c.App.ConsensusKeeper.GetMessagesFromQueue(c.ReadCtx(), sq, 0)
+				if len(ms) == 0 {
+					t.Skip("empty queue")
+				}
+				m := ms[rapid.IntRange(0, len(ms)-1).Draw(t, "msg")]
+				var proof *codectypes.Any
+				var desc string
+				if rapid.IntRange(0, 3).Draw(t, "crossType") == 0 {
+					sub = map[string]string{"validators-balances": "reference-block", "reference-block": "validators-balances"}[sub]
+				}
+				if sub == "validators-balances" {
+					k := rapid.SampledFrom([]int{0, 1, n - 1, n, n + 3}).Draw(t, "nBalances")
+					bal := make([]string, k)
+					for i := range bal {
+						bal[i] = rapid.SampledFrom([]string{"1000000000000000000", "0", "", "abc", "-5", "1e30", "115792089237316195423570985008687907853269984665640564039457584007913129639936" + strings.Repeat("0", 100)}).Draw(t, "balance")
+					}
+					proof, _ = codectypes.NewAnyWithValue(&evmtypes.ValidatorBalancesAttestationRes{BlockHeight: rapid.SampledFrom([]uint64{0, 1, 1<<64 - 1}).Draw(t, "height"), Balances: bal})
+					desc = fmt.Sprintf("balances%v", bal)
+					if len(desc) > 120 {
+						desc = desc[:120] + "..."
+					}
+				} else {
+					hash := rapid.SampledFrom([]string{"0x" + strings.Repeat("ab", 32), "", "zz", strings.Repeat("f", 5000)}).Draw(t, "blockHash")
+					height := rapid.SampledFrom([]uint64{0, 1, 1 << 63, 1<<64 - 1}).Draw(t, "height")
+					proof, _ = codectypes.NewAnyWithValue(&evmtypes.ReferenceBlockAttestationRes{BlockHeight: height, BlockHash: hash})
+					desc = fmt.Sprintf("refBlock(%d,%d-byte hash)", height, len(hash))
+				}
+				var txs [][]byte
+				for _, v := range c.Vals {
+					txs = append(txs, c.MustSign(v.Actor, &consensustypes.MsgAddEvidence{Metadata: chain.MD(v.Actor), Proof: proof, MessageID: m.GetId(), QueueTypeName: sq}))
+				}
+				oks := block(t, "stateEvidence", txs...)
+				log = append(log, fmt.Sprintf("h%d:stateEvidence(%s msg %d,%s)=%v", c.H-1, sq, m.GetId(), desc, oks))
+				hostile(oks[0])
+			},
 			"bridgeSend": func(t *rapid.T) {
 				amt := rapid.SampledFrom([]string{"1", "1000", "57896044618658097711785492504343953926634992332820282019728792003956564819967", "28948022309329048855892746252171976963317496166410141009864396001978282409984"}).Draw(t, "amount")
 				a, _ := sdkmath.NewIntFromString(amt)
@@ -265,6 +308,26 @@ func TestC09_BlocksNeverAbort(t *testing.T) {
 				log = append(log, fmt.Sprintf("h%d:gov(%s)=%v", c.H, what, err == nil))
 				hostile(err == nil)
 			},
+			// Fixture standing for a long history: the global message id counter moves ahead by 1000..5000, as it does when
+			// that many messages were queued and have since been attested or pruned (ids are only ever compared, e.g.
+			// by the metrics scoring window of 1000 messages).
+			"skipMessageIds": func(t *rapid.T) {
+				if idSkips >= 2 {
+					t.Skip("enough")
+				}
+				idSkips++
+				delta := uint64(rapid.SampledFrom([]int{999, 1000, 1001, 1500, 5000}).Draw(t, "delta"))
+				ctx := c.Ctx()
+				ider := keeperutil.NewIDGenerator(c.App.ConsensusKeeper, nil)
+				const counter = "consensus-queue-counter-"
+				cur := ider.GetLastID(ctx, counter)
+				c.App.ConsensusKeeper.Store(ctx).Set(append([]byte("generated-ids-"), counter...), keeperutil.Uint64ToByte(cur+delta))
+				if got := ider.GetLastID(ctx, counter); got != cur+delta {
+					t.Fatalf("fixture: message id counter is %d, expected %d", got, cur+delta)
+				}
+				block(t, "skipMessageIds")
+				log = append(log, fmt.Sprintf("h%d:skipMessageIds(%d->%d)", c.H-1, cur, cur+delta))
+			},
 			"advance": func(t *rapid.T) {
 				k := rapid.SampledFrom([]int{1, 2, 6, 12, 55}).Draw(t, "blocks")
 				for i := 0; i < k; i++ {
@@ -278,7 +341,7 @@ func TestC09_BlocksNeverAbort(t *testing.T) {
 			block(t, "final advance")
 		}
 		nt := hostileAccepted > 0 && crossedHousekeeping
-		evid.Case(t.Name(), fmt.Sprintf("start=%d %s", base, strings.Join(log, " ")), nt, []string{fmt.Sprintf("hostileAccepted=%d", min(hostileAccepted, 8)), fmt.Sprintf("start=%d", base)}, func() any { return log })
+		evid.Case(t.Name(), fmt.Sprintf("start=%d %s", base, strings.Join(log, " ")), nt, []string{fmt.Sprintf("hostileAccepted=%d", min(hostileAccepted, 8)), fmt.Sprintf("start=%d", base), fmt.Sprintf("idSkips=%d", idSkips)}, func() any { return log })
 	})
 }
 
